@@ -23,7 +23,7 @@ OUTSIDE = "instantaneous-frequency ('if') mask source (needs the Hilbert transfo
           'evaluates them in doubles)'
 ASSUMPTIONS = ['Pool.starmap order preserving; jobs touch no worker-local state (any RNG draw during a masked extraction is reported)',
                'std() for the ratio amplitude modes: abstract positive square root, identical arguments share one root']
-REQUIRED_CLASSES = ['gnim:extracted', 'ladder:two-imfs', 'zc:count-positive']
+REQUIRED_CLASSES = ['gnim:extracted', 'ladder:two-imfs', 'zc:count-positive', 'gnim:integer-input']
 EXPECTED_LABELS = ['never-raises', 'masked-imf-is-phase-average-with-mask-removed', 'continue-flag-is-any', 'zero-amplitude-is-plain-extraction',
                    'returned-mask-frequencies', 'imf-uses-documented-frequency-and-amplitude', 'no-worker-local-state']
 BUDGET_S = {'quick': 170, 'thorough': 900}
@@ -41,6 +41,8 @@ def configs(tier):
            # non-default envelope / extrema options must govern the masked extractions on every schedule (serial and pooled)
            ('gnim-z0.3-1phase-amp0.5-P1-padwidth1-N7', {'kind': 'gnim', 'N': 7, 'z': 0.3, 'nphases': 1, 'amp': 0.5, 'P': 1,
                                                         'ext_opts': {'pad_width': 1}, '_budget_s': 30 if q else 200}),
+           ('gnim-z0.3-2phase-amp0.5-P1-int-input', {'kind': 'gnim', 'N': 6, 'z': 0.3, 'nphases': 2, 'amp': 0.5, 'P': 1, 'int_input': True,
+                                                     '_budget_s': 25 if q else 200}),
            ('gnim-z0.3-1phase-amp0.5-P1-pchip', {'kind': 'gnim', 'N': 6, 'z': 0.3, 'nphases': 1, 'amp': 0.5, 'P': 1,
                                                  'env_opts': {'interp_method': 'pchip'}, '_budget_s': 30 if q else 300})]
     if not q:
@@ -77,7 +79,11 @@ def spec_masked(h, X, N, z, amp, nphases, **stage_opts):
 
 def harness(h):
     kind, N = h.params['kind'], h.params['N']
-    X = h.reals('x', N, lo=-8, hi=8)
+    if h.params.get('int_input'):
+        X = h.int_array('x', N, -8, 8)        # raw counts: the masks are real-valued sinusoids whatever the input dtype
+        h.note('gnim:integer-input')
+    else:
+        X = h.reals('x', N, lo=-8, hi=8)
     h.set_option('sqrt', 'abstract-pos')
     rng_before = None
     if h.symbolic:
